@@ -85,7 +85,10 @@ def _zip_chain(ret: T):
     a, b = it.args[1]
     if b is not tm.sub(a, S1):
         return None
-    if elt is T("tuple", T("elem", a, lid), T("elem", b, lid)):
+    from ..lib import fuse_elems
+    if elt is T("tuple", T("elem", a, lid), T("elem", b, lid)) or \
+            elt is fuse_elems(T("tuple", T("elem", a, lid),
+                                T("elem", b, lid))):
         return a
     return None
 
@@ -178,15 +181,34 @@ def _by_index(ctx, prog):
            "where the previous ended)", key="C10.1:index:chain")
 
 
+def _per_pose_source(it: T) -> bool:
+    """the poses, or an array with one entry per pose in pose order
+    (np.array([f(p) for p in poses]))"""
+    if it is POSES:
+        return True
+    pe = per_element(it)
+    return pe is not None and not pe[3] and pe[2] is POSES
+
+
 def _strip_prefix(cond: T, prefix: T, lid: int) -> T:
     pl = set(_conj(prefix)) | {T("iter", lid)}
     return tm.mk_and(*[x for x in _conj(cond) if x not in pl])
 
 
+def _new_defaults(ctx, f, known):
+    """parameters added to a filter later are analysed at their defaults"""
+    from ..lib import extra_defaults
+    extra = extra_defaults(f, known)
+    ctx.require(extra is not None, f"{f.name}: signature changed")
+    return extra
+
+
 def _by_path(ctx, prog):
     f = prog.func(FP)
+    extra = _new_defaults(ctx, f, ["poses", "delta", "tol", "all_pairs"])
+    from ..lib import fuse_elems, index_comp
     # ---------------- consecutive
-    r = Interp(prog).run(f, {"all_pairs": const(False)})
+    r = Interp(prog).run(f, dict(extra, all_pairs=const(False)))
     ids = _zip_chain(r.ret)
     ok = ids is not None and ids.op == "loopout"
     ctx.ob("C10.1", f, ok,
@@ -202,7 +224,7 @@ def _by_path(ctx, prog):
             acc[0][1].op == "mut" and acc[0][1].args[1] == "append" and \
             acc[0][1].args[2] == (T("index", lid),) and \
             is_call_to(loop.data["iter"], "builtins.enumerate") and \
-            loop.data["iter"].args[1][0] is POSES
+            _per_pose_source(loop.data["iter"].args[1][0])
         ctx.ob("C10.1", f, ok,
                "meters/consecutive: ids are appended in increasing loop "
                "order over all poses" if ok else
@@ -228,6 +250,11 @@ def _by_path(ctx, prog):
                   tm.is_const(v.args[2])]
             ok4 = False
             detail = "accumulator not found"
+            if path is None:
+                ctx.undecidable("C10.4", f, "meters/consecutive: the "
+                                "accumulated path is not identified (accept "
+                                "test not recognised, see C10.3)")
+                return
             if len(cp) == 1:
                 accv = cp[0]
                 chain = _ite_chain(accv.args[3])
@@ -252,8 +279,41 @@ def _by_path(ctx, prog):
                     path.args[2].walk())
             prev = [v for k, v in r.env_all.items() if v.op == "loopout" and
                     v.args[1] == lid and v.args[3].op == "elem"]
-            okp = okp and len(prev) == 1 and prev[0].args[3].args[0] is POSES
+            TR_ = T("tuple", T("slice", tm.NONE, const(3), tm.NONE),
+                    const(3))
             whyp = "step term not recognised"
+            if okp and len(prev) == 1 and prev[0].args[3].args[0] is not \
+                    POSES and _per_pose_source(prev[0].args[3].args[0]):
+                # the loop carries the previous *position* (poses were
+                # reduced to their translations before the loop)
+                pv = prev[0]
+                pvar = T("loopvar", pv.args[0], lid, pv.args[2])
+                cur_raw = pv.args[3]
+                nrm = [x for x in path.args[2].walk()
+                       if is_call_to(x, "numpy.linalg.norm")]
+                d = nrm[0].args[1][0] if len(nrm) == 1 and nrm[0].args[1] \
+                    else None
+                init_ok = index_comp(pv.args[2]) is tm.sub(
+                    tm.sub(POSES, const(0)), TR_)
+                cur_ok = fuse_elems(cur_raw) is tm.sub(
+                    T("elem", POSES, lid), TR_)
+                diff_ok = d is not None and d.op == "binop" and \
+                    d.args[0] == "Sub" and {d.args[1], d.args[2]} == {
+                        cur_raw, pvar}
+                okp = init_ok and cur_ok and diff_ok
+                whyp = (f"previous position starts as {fmt(pv.args[2])[:60]}"
+                        if not init_ok else f"step is {fmt(d)[:90]}")
+                ctx.ob("C10.4", f, okp,
+                       "meters/consecutive: each step adds |t_i - t_(i-1)|, "
+                       "the distance to the immediately preceding pose "
+                       "(starting from pose 0)" if okp else
+                       f"meters/consecutive: the accumulated quantity is not "
+                       f"the travelled path |t_i - t_(i-1)|: {whyp}",
+                       key="C10.4:path:step")
+                okp = None
+            else:
+                okp = okp and len(prev) == 1 and \
+                    prev[0].args[3].args[0] is POSES
             if okp:
                 # |t(cur) - t(prev)| with prev_0 = poses[0], prev := cur
                 pv = prev[0]
@@ -273,7 +333,8 @@ def _by_path(ctx, prog):
                 okp = init_ok and diff_ok
                 whyp = (f"previous pose starts as {fmt(pv.args[2])}"
                         if not init_ok else f"step is {fmt(d)[:90]}")
-            ctx.ob("C10.4", f, okp,
+            if okp is not None:
+              ctx.ob("C10.4", f, okp,
                    "meters/consecutive: each step adds |t_i - t_(i-1)|, the "
                    "distance to the immediately preceding pose (starting "
                    "from pose 0)" if okp else
@@ -281,7 +342,7 @@ def _by_path(ctx, prog):
                    f"travelled path |t_i - t_(i-1)|: {whyp}",
                    key="C10.4:path:step")
     # ---------------- all pairs
-    r = Interp(prog).run(f, {"all_pairs": const(True)})
+    r = Interp(prog).run(f, dict(extra, all_pairs=const(True)))
     apps = [e for e in r.of_kind("call") if e.data.get("mutates_recv")
             and e.data["name"] == ".append"]
     ctx.require(len(apps) == 1, "meters/all-pairs: append not found")
@@ -350,6 +411,20 @@ def _by_path(ctx, prog):
                                 why5 = (f"the tolerance is tested on "
                                         f"{fmt(cmps[0][0])[:100]}, not on "
                                         f"the selected candidate")
+    if ok5 is None and pair.op == "tuple" and len(pair.args) == 2:
+        j = pair.args[1]
+        ss = [x for x in j.walk() if is_call_to(x, "numpy.searchsorted",
+                                                ".searchsorted")]
+        chooses = any(x.op == "ite" or is_call_to(
+            x, "numpy.argmin", ".argmin", "numpy.abs", "builtins.abs")
+            for x in j.walk())
+        if ss and not chooses:
+            # an insertion point is the first pose that *reaches* delta; the
+            # closest pose may be the one before it, and nothing compares
+            ok5 = False
+            why5 = ("np.searchsorted gives the first pose whose path length "
+                    "reaches delta; the pose before it can be closer and is "
+                    "never compared")
     if ok5 is None:
         ctx.undecidable("C10.5", e, f"meters/all-pairs: candidate selection "
                         f"{why5}: {fmt(pair)[:160]}")
@@ -479,6 +554,11 @@ def _by_angle(ctx, prog):
                     for x in asum.walk()) and tm.is_const(v.args[2])
                 and k != name]
         ok4 = False
+        if asum is None:
+            ctx.undecidable("C10.4", f, f"[degrees={deg}] angle/consecutive: "
+                            f"the accumulated angle is not identified "
+                            f"(accept test not recognised, see C10.3)")
+            continue
         if len(accs) == 1:
             chain = _ite_chain(accs[0].args[3])
             rs = [(c, v) for c, v in chain if c is not None]
